@@ -15,6 +15,7 @@ func init() {
 	drivers["c07u"] = c07u
 	drivers["c16r"] = c16r
 	drivers["c13r"] = c13r
+	drivers["c18r"] = c18r
 }
 
 // validPrefixes enumerates every valid frame sequence of exactly n frames
@@ -206,13 +207,18 @@ func c07(c *ctx) {
 						}
 						var fs []fspec
 						parts := [][]byte{s.b[:i], s.b[i:j], s.b[j:]}
+						if i == 0 && j == 0 {
+							parts = [][]byte{s.b} // unfragmented: a single final frame
+						} else if i == j {
+							parts = [][]byte{s.b[:i], s.b[i:]} // two fragments
+						}
 						for pi, p := range parts {
 							o := 0
 							if pi == 0 {
 								o = op
 							}
-							fs = append(fs, fspec{Op: o, Fin: pi == 2, Pay: p})
-							if ping == 1 && pi < 2 {
+							fs = append(fs, fspec{Op: o, Fin: pi == len(parts)-1, Pay: p})
+							if ping == 1 && pi < len(parts)-1 {
 								fs = append(fs, fspec{Op: 9, Fin: true, Pay: []byte{0xe2}}) // control payloads are never UTF-8 checked
 							}
 						}
@@ -243,8 +249,8 @@ func c07u(c *ctx) {
 		if !vh.Only(key) {
 			return
 		}
-		for ci, chunk := range [][]int{nil, {1}, {2}} {
-			u := wsutil.NewUTF8Reader(&vh.ChunkReader{Data: in, Sizes: chunk})
+		for ci, chunk := range [][]int{nil, {1}, {2}, {3}} {
+			u := wsutil.NewUTF8Reader(&vh.ChunkReader{Data: in, Sizes: chunk, DataErr: ci == 3})
 			var got []byte
 			buf := make([]byte, 16)
 			var err error
@@ -372,6 +378,11 @@ func c16r(c *ctx) {
 						key := fmt.Sprintf("cut/%d/%s/%d/%d/%s", si, side, vi, cut, kind)
 						sc := mkScenario(key, side, v, fs, rchunks[rot%len(rchunks)], rbufs[(rot/5)%len(rbufs)])
 						sc.Cut, sc.CutKind = cut, kind
+						if kind == "err" {
+							// an error delivered together with the last bytes may legitimately make the
+							// library drop those bytes; data+error in one Read is only used with EOF
+							sc.DataErr = false
+						}
 						t.run(sc)
 					}
 				}
@@ -416,6 +427,50 @@ func c13r(c *ctx) {
 							sc.Ext, sc.Extended = true, extended
 							t.run(sc)
 						}
+					}
+				}
+			}
+		}
+	}
+	t.finish(c)
+}
+
+// ---------------------------------------------------------------- C18 (message reader reuse)
+
+// c18r: a reader that has delivered or discarded a message - possibly after reading
+// only a part of it, in the middle of a multi-byte sequence, or after an invalid tail -
+// must read the next message exactly as a new reader would.
+func c18r(c *ctx) {
+	t := &rsink{out: vh.NewOut(c.dir, "c18r", 40000), shapes: vh.Shapes{}, meta: &vh.Meta{Property: "C18", Tier: c.tier, Seed: c.seed,
+		Rule: "message reader reuse: first message (32 valid/invalid/truncated UTF-8 strings as text or binary, 1-3 fragments, optional ping) read with 1/2/7-byte buffers and discarded after 0..3 reads or read to the end, followed by two valid messages on the same reader (CheckUTF8 on/off, extension attached or not); distinct = (string, discard point, outcome)"}}
+	defer t.out.Close()
+	rot := 0
+	for _, s := range utf8Samples {
+		n := len(s.b)
+		for _, cut := range []int{0, n / 2, n} {
+			for _, disc := range []int{-1, 0, 1, 2, 3} {
+				for _, buf := range []int{1, 2, 7} {
+					for _, op := range []int{1, 2} {
+						rot++
+						if !c.thorough && rot%3 != 0 && disc != 1 {
+							continue
+						}
+						var fs []fspec
+						if cut == 0 || cut == n {
+							fs = append(fs, fspec{Op: op, Fin: true, Pay: s.b})
+						} else {
+							fs = append(fs, fspec{Op: op, Fin: false, Pay: s.b[:cut]}, fspec{Op: 9, Fin: true, Pay: []byte("p")}, fspec{Op: 0, Fin: true, Pay: s.b[cut:]})
+						}
+						fs = append(fs, fspec{Op: 1, Fin: false, Pay: []byte("o")}, fspec{Op: 0, Fin: true, Pay: []byte("k€")}, fspec{Op: 2, Fin: true, Pay: []byte{0xff, 0xfe}}, fspec{Op: 1, Fin: true, Pay: []byte("é")})
+						side := []string{"server", "client"}[rot%2]
+						v := rvariant{"reader", nil, disc, rot%4 != 0}
+						key := fmt.Sprintf("reuse/%s/%d/%d/%d/%d/%s", s.name, cut, disc, buf, op, side)
+						sc := mkScenario(key, side, v, fs, rchunks[rot%len(rchunks)], buf)
+						if rot%5 == 0 {
+							sc.Ext, sc.Extended = true, true
+							sc.build(fs, len(key))
+						}
+						t.run(sc)
 					}
 				}
 			}
